@@ -60,7 +60,14 @@ func (e *Exec) loopEnv(st *State, pos token.Pos, extra map[string]Val) *cenv {
 	env.resolve = func(name string, s *State) (Val, bool) {
 		sc := pkg.Types.Scope().Innermost(pos)
 		for sc != nil {
-			if obj := sc.Lookup(name); obj != nil {
+			// declarations later in the same block (which may shadow a parameter) are not visible at pos
+			obj := sc.Lookup(name)
+			if obj != nil && obj.Pos().IsValid() && pos.IsValid() && obj.Pos() > pos && sc != pkg.Types.Scope() {
+				if _, isVar := obj.(*types.Var); isVar {
+					obj = nil
+				}
+			}
+			if obj != nil {
 				if v, ok := s.vars[obj]; ok {
 					return v, true
 				}
@@ -419,6 +426,14 @@ func (e *Exec) ccall(st *State, x *ast.CallExpr, env *cenv) Val {
 				cl = Val{T: e.closed0()}
 			}
 			return Val{T: Select(cl.T, ch.T), GT: boolT}
+		case "first", "second":
+			// components of a multi-value call result
+			v := arg(0)
+			i := map[string]int{"first": 0, "second": 1}[id.Name]
+			if len(v.Tuple) <= i {
+				e.fail(x.Pos(), "contract: %s() needs a multi-value call", id.Name)
+			}
+			return v.Tuple[i]
 		case "visited":
 			if env.visited == nil {
 				e.fail(x.Pos(), "contract: visited() is only available in invariants of loops over maps")
